@@ -263,7 +263,7 @@ P("C06", lambda t: [I("k6_store"), I("k6_load"), I("p7_load"), I("p7_store"), I(
 P("C07", lambda t: g_t4(selffind=(t == "thorough")) + g_t1(t) + g_t2(t) + g_t3_lemma(t))
 P("C08", lambda t: g_t1(t) + g_t2(t) + g_t3_lemma(t) + g_t4(selffind=(t == "thorough")) + g_p3(t) + g_p5() + g_p6())
 P("C09", lambda t: g_p4(t) + g_p5() + g_p6() + g_t1(t, rules=(0, 1)))
-P("C10", lambda t: [I("k5_features"), I("k5_default"), I("k9_create"), I("p7_load"), I("p7_store"), I("k8_crypt")] + g_p5() + g_k3() + [I("k6_store")])
+P("C10", lambda t: [I("k5_features"), I("k5_default"), I("k9_create"), I("p7_load"), I("p7_store"), I("k8_crypt"), I("h_inject")] + g_p5() + g_k3() + [I("k6_store")])
 P("C11", lambda t: [I("k4_birthday"), I("k9_create"), I("k8_crypt"), I("p7_store")] + g_k3() + [I("k6_store")])
 K8_LONG = dict(defs=["PWMAX=500", "PW_PREFIX=490", "DEP_PW_COPY=512", "DEP_STR_MAX=1", "K8_LIGHT=1"], flags=UW(515), cap=1800, rss=11.0)
 K8_MID = dict(defs=["PWMAX=72", "PW_PREFIX=64", "DEP_PW_COPY=80", "DEP_STR_MAX=1", "K8_LIGHT=1"], flags=UW(83), cap=600, rss=2.0)
